@@ -27,7 +27,12 @@ pub struct Stats {
     pub nontrivial_sigs: Vec<u64>,
     pub states: Vec<u64>,
     pub samples: Vec<String>,
+    /// order independent digest over every event of every execution (digest subcommand)
+    pub ev_digest: u64,
 }
+
+/// set by the digest subcommand: hash every event of every execution
+pub static DIGEST_EVENTS: AtomicBool = AtomicBool::new(false);
 
 impl Stats {
     #[inline]
@@ -49,6 +54,7 @@ impl Stats {
         self.nontrivial_sigs.extend(o.nontrivial_sigs);
         self.states.extend(o.states);
         self.samples.extend(o.samples);
+        self.ev_digest = self.ev_digest.wrapping_add(o.ev_digest);
     }
 }
 
